@@ -479,9 +479,107 @@ def run_thr(hi, bound, shard):
     return execs, states, transitions, by_pre, seen, sorted(best.items())
 
 
+class ListRec(list):
+    """A recording destination that is a list (like the BadDestination of eliot's own tests): two such
+    destinations that have received the same messages compare equal without being the same object."""
+
+    def __call__(self, m):
+        self.append(m.get("n", m.get("message_type")))
+
+
+SCENARIOS = ["equal-destinations-one-call", "equal-destinations-back-to-back", "destination-fails-during-backlog",
+             "destination-removes-itself-during-backlog", "destination-removes-itself-while-live",
+             "destination-registers-another-while-called"]
+
+
+def run_scenario(name):
+    """Destinations that are legal but unusual.  Returns violations."""
+    viol = []
+
+    def expect(what, got, want):
+        if got != want:
+            viol.append(("scenario:%s:%s" % (name, what), {"got": repr(got)[:200], "want": repr(want)}))
+
+    def go():
+        log = lambda n: eliot.log_message("s", n=n)
+        if name == "equal-destinations-one-call":
+            r1, r2 = ListRec(), ListRec()
+            log(0), log(1)
+            eliot.add_destinations(r1, r2)
+            log(2)
+            expect("first", list(r1), [0, 1, 2])
+            expect("second", list(r2), [0, 1, 2])
+        elif name == "equal-destinations-back-to-back":
+            base = []
+            eliot.add_destinations(lambda m: base.append(m["n"]))
+            r1, r2 = ListRec(), ListRec()
+            eliot.add_destinations(r1)
+            eliot.add_destinations(r2)
+            log(0), log(1)
+            expect("first", list(r1), [0, 1])
+            expect("second", list(r2), [0, 1])
+            expect("base", base, [0, 1])
+        elif name == "destination-fails-during-backlog":
+            calls = []
+
+            def failing(m):
+                calls.append(m.get("n", m.get("message_type")))
+                if m.get("n") == 1:
+                    raise RuntimeError("cannot take this one")
+
+            r = ListRec()
+            log(0), log(1), log(2)
+            try:
+                eliot.add_destinations(failing, r)
+            except Exception as e:
+                viol.append(("scenario:%s:add_destinations-raised" % name, {"error": repr(e)}))
+            log(3)
+            expect("healthy-destination", [x for x in r if isinstance(x, int)], [0, 1, 2, 3])
+            expect("failure-reports", [x for x in r if not isinstance(x, int)], ["eliot:destination_failure"])
+            expect("failing-destination", [x for x in calls if isinstance(x, int)], [0, 1, 2, 3])
+        elif name in ("destination-removes-itself-during-backlog", "destination-removes-itself-while-live"):
+            got = []
+
+            def once(m):
+                eliot.remove_destination(once)
+                got.append(m["n"])
+
+            first, r = ListRec(), ListRec()
+            if name.endswith("backlog"):
+                log(0), log(1), log(2)
+                eliot.add_destinations(first, once, r)
+            else:
+                eliot.add_destinations(first, once, r)
+                log(0), log(1), log(2)
+            expect("one-shot", got, [0])
+            expect("registered-before-it", list(first), [0, 1, 2])
+            expect("registered-after-it", list(r), [0, 1, 2])
+        elif name == "destination-registers-another-while-called":
+            late = ListRec()
+            r0, r = ListRec(), ListRec()
+
+            def adder(m):
+                if m["n"] == 1:
+                    eliot.add_destinations(late)
+
+            eliot.add_destinations(r0, adder, r)
+            log(0), log(1), log(2)
+            expect("registered-before", list(r0), [0, 1, 2])
+            expect("registered-after", list(r), [0, 1, 2])
+            expect("added-while-message-1-was-delivered", list(late), [2])
+        else:
+            raise ValueError(name)
+
+    try:
+        world.run_isolated(go)
+    except Exception as e:
+        viol.append(("scenario:%s:registration-or-logging-call-raised" % name, {"error": repr(e)[:200]}))
+    return viol
+
+
 def units(tier):
     b = BOUNDS(tier)
-    return [["bfs", b["depth"], b["max_bursts"]]] + [
+    return [["scenario", i] for i in range(len(SCENARIOS))] + [["bfs", b["depth"], b["max_bursts"]]] + [
         ["thr", i, b["preemptions"], k] for i in range(len(THR_HARNESSES)) for k in range(NSHARDS)
     ]
 
@@ -491,6 +589,9 @@ def cases(unit, tier):
 
 
 def run_case(case):
+    if case[0] == "scenario":
+        v = run_scenario(SCENARIOS[case[1]])
+        return Result(outcome=["scenario", case[1], len(v)], nontrivial=True, violations=v[:3])
     if case[0] == "bfs":
         states, transitions, maxd, viol = bfs(case[1], case[2])
         world.fresh()
